@@ -1,6 +1,6 @@
 """C01 - conversions agree with the proleptic Gregorian / ISO 8601 calendar"""
 from .. import refcal as R, spec as SP
-from ..batch import run_lines, BatchError
+from ..batch import run_lines, run_args, BatchError
 from ..core import Sub
 from .common import SRC, Viol, days_for, boundary, tail
 
@@ -68,6 +68,14 @@ def specs(ctx, shard, nshards):
             V.add("batch:%s" % s, {"src": s, "variant": k, "n0": days[0], "n1": days[-1],
                                    "kind": "batch"}, detail=str(e), actual=e.result.brief())
             continue
+        # the value as an argument (own path in main()): it must print what it prints as a line
+        for j in sorted(set((0, len(lines) // 2, len(lines) - 1))):
+            r = run_args(ctx.build, "dconv", a + ["-f", FMT, "--", lines[j]])
+            o = (r.lines() or [""])[0]
+            sub.evaluations += 1
+            if r.crashed or o != out[j]:
+                V.add("arg:%s" % s, {"src": s, "variant": k, "n": days[j], "spec": "*", "route": "arg"},
+                      expected=out[j], actual=r.brief() if r.crashed else o)
         for n, o, rf in zip(days, out, ref):
             got = o.split("|")
             if len(got) != len(SPECS):
@@ -130,6 +138,11 @@ def replay(ctx, subname, case):
             return {"detail": str(e), "result": e.result.brief()}
         return None
     n = case["n"]
+    if subname == "c01.specs" and case.get("route") == "arg":
+        out, _ = run_lines(ctx.build, "dconv", a + ["-f", FMT], [mk(n)])
+        r = run_args(ctx.build, "dconv", a + ["-f", FMT, "--", mk(n)])
+        o = (r.lines() or [""])[0]
+        return None if (o == out[0] and not r.crashed) else {"input": mk(n), "as_line": out[0], "as_argument": o}
     if subname == "c01.specs":
         out, _ = run_lines(ctx.build, "dconv", a + ["-f", FMT], [mk(n)])
         got = out[0].split("|")
